@@ -4,6 +4,7 @@ run by translator/guards.py) imply the preconditions of the kernels. Decision lo
 -/
 import Mahotas.Model.C11
 import Mahotas.Proofs.C11Shapes
+import Mahotas.Proofs.C11Hitmiss
 import Mahotas.Properties.C10
 open Mahotas Mahotas.C11 Mahotas.C10
 
@@ -144,7 +145,7 @@ theorem C11_find2d_guards_imply_pre (env : Env)
 
 /-- **C11-T1 (hitmiss).** The wrapper `morph.hitmiss` lets ndarrays through only with equal rank ≥ 1; the native
 `py_hitmiss` runs only with three ndarrays, the result of the shape of the input and a C array. (Neither checks that no
-axis of `input` or `Bc` has length zero: see `C11_hitmiss_safe_partial`.) -/
+axis of `input` or `Bc` has length zero: `C11_hitmiss_safe` shows that none is needed.) -/
 theorem C11_hitmiss_guards_imply_pre (env : Env) :
     ((env "input").kind = 1 → (env "Bc").kind = 1 → passes Generated.guards_morph_hitmiss env = true → PreHitmissW env) ∧
     (npasses Generated.nativeGuards_morph_hitmiss env = true →
@@ -227,11 +228,10 @@ theorem C11_cooccurence_guards_imply_pre (env : Env) (hf : (env "f").kind = 1) (
   simp [hs]
   omega
 
-/-- **C11-T1 (rank_filter, median_filter) — partial.** The helper `convolve._check_rank(Bc, rank, fname)` raises unless
-`0 ≤ rank < count_nonzero(Bc)`. NOT covered: that `rank_filter` and `median_filter` call it with the very `Bc` and
-`rank` they pass on to `_convolve.rank_filter` (they do, textually; the call is recorded as an opaque statement, the
-data flow is not modelled). -/
-theorem C11_rank_guards_imply_pre_partial (env : Env) (hr : (env "rank").kind = 2) (hb : (env "Bc").kind = 1)
+/-- **C11-T1 (the helper `_check_rank`).** `convolve._check_rank(Bc, rank, fname)` raises unless
+`0 ≤ rank < count_nonzero(Bc)`. That `rank_filter` and `median_filter` hand the very objects it has checked to
+`_convolve.rank_filter` is `C11_rank_guards_imply_pre` (round 3, from the extracted check flows). -/
+theorem C11_check_rank_helper_pre (env : Env) (hr : (env "rank").kind = 2) (hb : (env "Bc").kind = 1)
     (h : passes Generated.guards_convolve__check_rank env = true) : PreRank env := by
   simp [Generated.guards_convolve__check_rank, passes, Atom.rejects, isArr, isInt, hr, hb] at h
   exact h
@@ -287,73 +287,82 @@ theorem C11_structuring_elem_guards_imply_pre (env : Env) (ha : (env "A").kind =
 
 /-! ### composed corollaries: guards pass ⇒ every access of the C10 index model is in bounds -/
 
-/-- **C11+C10 (find).** Let the wrapper guards of `convolve.find` pass on ndarrays `f`, `template` and the guards of the
-native `py_find2d` pass on (`array`, `target`, `output`), where — the link between the two calls, `_convolve.find2d(f,
-template.astype(f.dtype), out)` — `array` has the shape of `f` and `target` the shape of `template` (well-formed
-descriptors). Then the arrays are exactly what the 2-D index model of C10 speaks about: `array` is `n0 × n1`, `target`
-is `t0 × t1`, `output` is `n0 × n1` in C order, and for a template with at least one element per axis every access
-`array.at(y+sy, x+sx)`, `target.at(sy, sx)`, `out.at(y, x)` of the model (with the strict and with the inclusive loop
-bound) is in bounds. -/
-theorem C11_find2d_safe (env : Env) (incl : Bool)
-    (hf : (env "f").kind = 1) (ht : (env "template").kind = 1)
-    (hw : passes Generated.guards_convolve_find env = true)
-    (hn : npasses Generated.nativeGuards_convolve_find2d env = true)
-    (wfa : (env "array").wf) (wft : (env "target").wf)
-    (la : (env "array").shape = (env "f").shape) (lt : (env "target").shape = (env "template").shape) :
-    ∃ n0 n1 t0 t1 : Nat, (env "f").shape = [n0, n1] ∧ (env "template").shape = [t0, t1] ∧ (env "output").shape = [n0, n1] ∧
-      (env "output").isCArray = true ∧
+/-- **C11+C10 (find), links extracted.** Let the wrapper guards of `convolve.find` pass on ndarrays `f`, `template`
+(well-formed descriptors `envW`), and let the descriptors `envN` of what the native `py_find2d` receives be linked to them
+by the argument links the translator extracted from the CURRENT source of `convolve.find` for its call of
+`_convolve.find2d` (`Generated.links_convolve_find__convolve_find2d`: `array` is `f` itself, `target` a rank-and-shape
+preserving conversion of `template`, `output` a fresh C array of the shape of `f` — read off the table by `simp`, no
+hand-written link hypothesis). Then `array` is `n0 × n1`, `target` is `t0 × t1`, `output` is `n0 × n1` in C order, and for a
+template with at least one element per axis every access `array.at(y+sy, x+sx)`, `target.at(sy, sx)`, `out.at(y, x)` of the
+C10 model (with the strict and with the inclusive loop bound) is in bounds. The native guards are not even needed. -/
+theorem C11_find2d_safe (envW envN : Env) (incl : Bool)
+    (hf : (envW "f").kind = 1) (ht : (envW "template").kind = 1)
+    (wff : (envW "f").wf) (wft : (envW "template").wf)
+    (hw : passes Generated.guards_convolve_find envW = true)
+    (hl : Linked Generated.lookupTables Generated.links_convolve_find__convolve_find2d envW envN = true) :
+    ∃ n0 n1 t0 t1 : Nat, (envN "array").shape = [n0, n1] ∧ (envN "target").shape = [t0, t1] ∧ (envN "output").shape = [n0, n1] ∧
+      (envN "output").isCArray = true ∧
       (1 ≤ t0 → 1 ≤ t1 → ∀ a ∈ find2dAccesses n0 n1 t0 t1 incl, 0 ≤ a.i ∧ a.i < a.size) := by
-  have _ := hw; have _ := hf; have _ := ht
-  obtain ⟨-, h2, h3, h4, h5⟩ := C11_find2d_guards_imply_pre env hn
-  obtain ⟨n0, n1, ea⟩ := shape_of_len_two (env "array").shape (by rw [← wfa]; exact h2)
-  obtain ⟨t0, t1, et⟩ := shape_of_len_two (env "target").shape (by rw [← wft]; exact h3)
-  refine ⟨n0, n1, t0, t1, by rw [← la, ea], by rw [← lt, et], by rw [h4, ea], h5, ?_⟩
+  obtain ⟨h2, h3⟩ := (by
+    simpa [Generated.guards_convolve_find, passes, Atom.rejects, isArr, hf, ht] using hw :
+      (envW "f").ndim = 2 ∧ (envW "template").ndim = 2)
+  simp [Linked, Generated.links_convolve_find__convolve_find2d, Link.holds, isArr, hf, ht] at hl
+  obtain ⟨ha, ⟨-, hts⟩, ⟨-, hos⟩, hoc⟩ := hl
+  obtain ⟨n0, n1, ea⟩ := shape_of_len_two (envW "f").shape (by rw [← wff]; exact h2)
+  obtain ⟨t0, t1, et⟩ := shape_of_len_two (envW "template").shape (by rw [← wft]; exact h3)
+  refine ⟨n0, n1, t0, t1, by rw [ha, ea], by rw [hts, et], by rw [hos, ea], hoc, ?_⟩
   intro h0 h1
   exact C10_find2d_in_bounds n0 n1 t0 t1 incl (by omega) (by omega)
 
-/-- **C11+C10 (majority_filter).** Let the wrapper guards of `morph.majority_filter` pass on an ndarray `img` and an
-integer `N`, and the guards of the native `py_majority_filter` pass on (`array`, `N`, `res_a`) with the same `N` (one
-environment) and `array` of the shape of `img`. Then `array` and `res_a` are `rows × cols`, `res_a` is a C array (so
-the flat output index of the model is its address), every access of the C10 model is in bounds and all four `!=`
-loops leave through their test. `N ≥ 0` comes from the WRAPPER only (`N <= 1` raises); the native entry point does
-not check it. -/
-theorem C11_majority_safe (env : Env)
-    (hi : (env "img").kind = 1) (hN : (env "N").kind = 2)
-    (hw : passes Generated.guards_morph_majority_filter env = true)
-    (hn : npasses Generated.nativeGuards_morph_majority_filter env = true)
-    (wfa : (env "array").wf) :
-    ∃ rows cols : Nat, (env "array").shape = [rows, cols] ∧ (env "res_a").shape = [rows, cols] ∧ (env "res_a").isCArray = true ∧
-      (∀ a ∈ majorityAccesses rows cols (env "N").ival, 0 ≤ a.i ∧ a.i < a.size) ∧
-      majorityDone rows cols (env "N").ival = true := by
-  obtain ⟨-, hN2⟩ := (C11_majority_guards_imply_pre env).1 hi hN hw
-  obtain ⟨-, h2, h3, h4⟩ := (C11_majority_guards_imply_pre env).2 hn
-  obtain ⟨r, c, ea⟩ := shape_of_len_two (env "array").shape (by rw [← wfa]; exact h2)
-  have := C10_majority_in_bounds r c (env "N").ival (by omega)
-  exact ⟨r, c, ea, by rw [h3, ea], h4, this.1, this.2⟩
+/-- **C11+C10 (majority_filter), links extracted.** Let the wrapper guards of `morph.majority_filter` pass on an ndarray
+`img` and an integer `N`; let `envN` be linked to the caller's arguments by the extracted links of the call of
+`_morph.majority_filter` (`array` a rank-and-shape preserving conversion of `img`, `res_a` the output of `_get_output` for
+it; the link of `N` is `other` — the wrapper may add 1 to an even `N` — so `N ≥ 2` at the native call is the hypothesis
+`hN2`, which holds for `N` and for `N + 1` whenever the wrapper guard `N <= 1` has passed). Then `array` and `res_a` are
+`rows × cols`, `res_a` is C-contiguous, every access of the C10 model is in bounds and all four `!=` loops leave through
+their test. -/
+theorem C11_majority_safe (envW envN : Env)
+    (hi : (envW "img").kind = 1) (hN : (envW "N").kind = 2) (wfi : (envW "img").wf)
+    (hw : passes Generated.guards_morph_majority_filter envW = true)
+    (hl : Linked Generated.lookupTables Generated.links_morph_majority_filter__morph_majority_filter envW envN = true)
+    (hN2 : (envN "N").ival = (envW "N").ival ∨ (envN "N").ival = (envW "N").ival + 1) :
+    ∃ rows cols : Nat, (envN "array").shape = [rows, cols] ∧ (envN "res_a").shape = [rows, cols] ∧ (envN "res_a").isContig = true ∧
+      (∀ a ∈ majorityAccesses rows cols (envN "N").ival, 0 ≤ a.i ∧ a.i < a.size) ∧
+      majorityDone rows cols (envN "N").ival = true := by
+  obtain ⟨h2, hNN⟩ := (C11_majority_guards_imply_pre envW).1 hi hN hw
+  simp [Linked, Generated.links_morph_majority_filter__morph_majority_filter, Link.holds, isArr, hi] at hl
+  obtain ⟨⟨-, has⟩, ⟨-, hrs⟩, hrc⟩ := hl
+  obtain ⟨r, c, ea⟩ := shape_of_len_two (envW "img").shape (by rw [← wfi]; exact h2)
+  have := C10_majority_in_bounds r c (envN "N").ival (by omega)
+  exact ⟨r, c, by rw [has, ea], by rw [hrs, ea], hrc, this.1, this.2⟩
 
-/-- **C11+C10 (hitmiss) — partial.** Let the wrapper guards of `morph.hitmiss` pass on ndarrays `input`, `Bc` and the
-guards of the native `py_hitmiss` pass on (`array`, `Bc`, `res_a`) with `array` of the shape of `input` (well-formed
-descriptors). Then rank(`Bc`) = rank(`array`) ≥ 1, `res_a` has the shape of `array` and is a C array, and — PROVIDED no
-axis of `array` or `Bc` has length zero, which NO guard of the wrapper or of the native entry point checks (the gap:
-stated as the hypotheses `hs`, `hb`) — the whole main loop of the C10 model dereferences only `res.at_flat(i)`, `i < N`
-and `input.at_flat(i + delta)` inside the buffer and ends through `i == N`. -/
-theorem C11_hitmiss_safe_partial (env : Env)
-    (hi : (env "input").kind = 1) (hB : (env "Bc").kind = 1)
-    (hw : passes Generated.guards_morph_hitmiss env = true)
-    (hn : npasses Generated.nativeGuards_morph_hitmiss env = true)
-    (wfi : (env "input").wf) (wfb : (env "Bc").wf)
-    (la : (env "array").shape = (env "input").shape)
-    (hs : ∀ d ∈ (env "array").shape, 0 < d) (hb : ∀ d ∈ (env "Bc").shape, 0 < d) :
-    (env "res_a").shape = (env "array").shape ∧ (env "res_a").isCArray = true ∧
-    (∀ a ∈ (hmRun (env "array").shape (env "Bc").shape true).1, 0 ≤ a.i ∧ a.i < a.size) ∧
-    (hmRun (env "array").shape (env "Bc").shape true).2 = true := by
-  obtain ⟨h1, h2⟩ := (C11_hitmiss_guards_imply_pre env).1 hi hB hw
-  obtain ⟨-, h3, h4⟩ := (C11_hitmiss_guards_imply_pre env).2 hn
-  unfold Desc.wf at wfi wfb
-  have hne : (env "array").shape ≠ [] := by
-    intro e; rw [la] at e; rw [e] at wfi; simp at wfi; omega
-  have hlen : (env "Bc").shape.length = (env "array").shape.length := by rw [la]; omega
-  have := C10_hitmiss_in_bounds (env "array").shape (env "Bc").shape hne hlen hs hb
+/-- **C11+C10 (hitmiss), links extracted, zero-length axes included.** Let the wrapper guards of `morph.hitmiss` pass on
+ndarrays `input`, `Bc`, let `envN` be linked by the extracted links of the call of `_morph.hitmiss` (`array` and `Bc` are
+`.view(dtype)`s / `astype` conversions of the caller's arguments: the same RANK), and let the guards of the native
+`py_hitmiss` pass (well-formed descriptors). Then rank(`Bc`) = rank(`array`) ≥ 1, `res_a` has the shape of `array` and is a C
+array, and the whole main loop of the C10 model dereferences only `res.at_flat(i)`, `i < N` and `input.at_flat(i + delta)`
+inside the buffer and ends through `i == N` — for ALL axis lengths: NO guard excludes a zero-length axis of the image or of
+`Bc` (`C11_hitmiss_zero_axis_passes_guards`), and none is needed: an image without elements is not iterated, an empty
+`Bc` has no neighbours and `slack` is then re-armed with `W + 1 > 0` or the margin test of `C10_hitmiss_in_bounds` applies
+(`Proofs/C11Hitmiss.lean: hmRun_ok_all`). This removes the `_partial` of round 2. -/
+theorem C11_hitmiss_safe (envW envN : Env)
+    (hi : (envW "input").kind = 1) (hB : (envW "Bc").kind = 1)
+    (hw : passes Generated.guards_morph_hitmiss envW = true)
+    (hl : Linked Generated.lookupTables Generated.links_morph_hitmiss__morph_hitmiss envW envN = true)
+    (hn : npasses Generated.nativeGuards_morph_hitmiss envN = true)
+    (wfa : (envN "array").wf) (wfb : (envN "Bc").wf) :
+    (envN "res_a").shape = (envN "array").shape ∧ (envN "res_a").isCArray = true ∧
+    (∀ a ∈ (hmRun (envN "array").shape (envN "Bc").shape true).1, 0 ≤ a.i ∧ a.i < a.size) ∧
+    (hmRun (envN "array").shape (envN "Bc").shape true).2 = true := by
+  obtain ⟨h1, h2⟩ := (C11_hitmiss_guards_imply_pre envW).1 hi hB hw
+  obtain ⟨-, h3, h4⟩ := (C11_hitmiss_guards_imply_pre envN).2 hn
+  simp [Linked, Generated.links_morph_hitmiss__morph_hitmiss, Link.holds, isArr, hi, hB] at hl
+  obtain ⟨⟨-, hna⟩, -, hnb⟩ := hl
+  unfold Desc.wf at wfa wfb
+  have hne : (envN "array").shape ≠ [] := by
+    intro e; rw [e] at wfa; simp at wfa; omega
+  have hlen : (envN "Bc").shape.length = (envN "array").shape.length := by omega
+  have := hmRun_ok_all (envN "array").shape (envN "Bc").shape hne hlen
   exact ⟨h3, h4, this.1, this.2⟩
 
 /-- **C11+C10 (center_of_mass).** If the guards of the native `py_center_of_mass` pass and labels are given, then for
@@ -444,7 +453,7 @@ theorem C11_zoom_shift_safe (env : Env) (m : Mode) (order : Nat) (coord starts :
     C10.zsStarts_length m order (env "array").shape coord starts hlen hst
   exact ⟨hca, (C10_zoom_shift_in_bounds (env "array").shape order starts hpos hsl).2.1⟩
 
-/-- **C11-T3 (rejects are exceptions).** Over the whole generated table of exit actions (every guard atom of the 50
+/-- **C11-T3 (rejects are exceptions).** Over the whole generated table of exit actions (every guard atom of the 51
 wrappers and of the 52 native entry points; the table is aligned with the guard lists — its second component is the
 length of the list): every wrapper guard `raise`s; every native guard either sets a Python error and returns NULL
 (`PyErr_SetString`/`PyErr_Format`/`PyErr_NoMemory`/`throw PythonException`, or `!PyArg_ParseTuple`, or a failed callee
@@ -495,4 +504,463 @@ example :
       if n = "A" then { kind := 1, ndim := 2, shape := [4, 4] } else
       if n = "Bc" then { kind := 1, ndim := 2, shape := [0, 3] } else {}) = some 1 := by
   decide
-example : Generated.guardActionTable.length = 102 ∧ Generated.nativeGuardTable.length = 52 := by decide
+example : Generated.guardActionTable.length = 103 ∧ Generated.nativeGuardTable.length = 52 := by decide
+
+/-! ## Round 3 — argument links extracted from the source, T1 for the remaining kernels, composed corollaries -/
+
+/-- **C11 (links, border mode).** Over the whole extracted link table (every call of a native entry point in every
+Python module of the package): each C parameter named `mode` receives `T[p]` for a module-level dictionary `T` whose
+values — extracted into `Generated.lookupTables` — all lie in `0 … 5`, the six `ExtendMode` values the kernels switch on
+(an unknown key raises `KeyError` in Python before the call). No native entry point checks its `mode` itself. -/
+theorem C11_mode_links_in_range :
+    (Generated.argLinkTable.all fun e => e.2.2.2.all fun pl =>
+      match pl.2 with
+      | .lookup t _ => pl.1 == "mode" &&
+          Generated.lookupTables.any (fun tb => tb.1 == t && tb.2.all (fun v => decide (0 ≤ v) && decide (v ≤ 5)))
+      | _ => pl.1 != "mode") = true := by
+  decide
+
+/-- the meaning of a `lookup` link into `mode2int` on a descriptor: an integer in `0 … 5` -/
+theorem C11_mode_link_sound (envW : Env) (d : Desc) (p : String)
+    (h : (Link.lookup "mode2int" p).holds Generated.lookupTables envW d = true) : d.kind = 2 ∧ modeInRange d := by
+  simp [Link.holds, Generated.lookupTables, isInt] at h
+  refine ⟨h.1, ?_⟩
+  unfold modeInRange
+  rcases h.2 with h | h | h | h | h | h <;> omega
+
+/-- **C11-T1 (convolve).** Native `py_convolve`: `array` and `filter` are ndarrays of one element type and the same
+rank; `output` is `None` or an ndarray, and then a C array of the shape (and type) of `array`. Wrapper
+`convolve.convolve`: ndarrays `f`, `weights` pass only with equal ranks. -/
+theorem C11_convolve_guards_imply_pre (env : Env) :
+    (npasses Generated.nativeGuards_convolve_convolve env = true →
+      ((env "array").kind = 1 ∧ (env "filter").kind = 1 ∧ ((env "output").kind = 0 ∨ (env "output").kind = 1)) ∧ PreConvolve env) ∧
+    ((env "f").kind = 1 → (env "weights").kind = 1 → passes Generated.guards_convolve_convolve env = true →
+      (env "f").ndim = (env "weights").ndim) := by
+  constructor
+  · intro h
+    simp [Generated.nativeGuards_convolve_convolve, npasses, NAtom.rejects, isArr] at h
+    obtain ⟨⟨ha, hf⟩, -, h3, h4, h5, -, h7⟩ := h
+    simp [ha, hf] at h3 h5
+    refine ⟨⟨ha, hf, h4⟩, h3, ?_⟩
+    intro ho
+    have ho1 : (env "output").kind = 1 := by omega
+    simp [ho, ho1] at h5 h7
+    exact ⟨h5, h7⟩
+  · intro hf hw h
+    simpa [Generated.guards_convolve_convolve, passes, Atom.rejects, isArr, hf, hw] using h
+
+/-- **C11+C10 (convolve), links extracted.** Let the wrapper guard of `convolve.convolve` pass on ndarrays `f`,
+`weights` (well-formed descriptors, `f` with at least one element per axis) and let `envN` be linked by the extracted
+links of the call of `_convolve.convolve` (`array` is `f` itself, `filter` a rank-and-shape preserving conversion of
+`weights`, `output` from `_get_output(f, out)`, `mode` a value of `mode2int`). Then the filter has the rank of the array,
+the output has its shape and is contiguous, the mode is one of the six border modes, and for EVERY border mode the offset
+table the filter iterator builds (C10 B1, `filterIdx`) holds only the flag or indices inside the array. -/
+theorem C11_convolve_safe (envW envN : Env) (m : Mode)
+    (hf : (envW "f").kind = 1) (hwk : (envW "weights").kind = 1)
+    (wff : (envW "f").wf) (wfw : (envW "weights").wf)
+    (hw : passes Generated.guards_convolve_convolve envW = true)
+    (hl : Linked Generated.lookupTables Generated.links_convolve_convolve__convolve_convolve envW envN = true)
+    (hpos : ∀ d ∈ (envW "f").shape, 0 < d) :
+    (envN "filter").shape.length = (envN "array").shape.length ∧ (envN "output").shape = (envN "array").shape ∧
+    (envN "output").isContig = true ∧ modeInRange (envN "mode") ∧
+    filterOk m (envN "array").shape (envN "filter").shape = true ∧
+    ∀ i ∈ filterIdx m (envN "array").shape (envN "filter").shape, i = -1 ∨ (0 ≤ i ∧ i < (shapeSize (envN "array").shape : Int)) := by
+  have hr := (C11_convolve_guards_imply_pre envW).2 hf hwk hw
+  have hmode : (Link.lookup "mode2int" "mode").holds Generated.lookupTables envW (envN "mode") = true := by
+    simp [Linked, Generated.links_convolve_convolve__convolve_convolve] at hl
+    exact hl.2.2.2
+  simp [Linked, Generated.links_convolve_convolve__convolve_convolve, Link.holds, isArr, hf, hwk] at hl
+  obtain ⟨ha, ⟨-, hfs⟩, ⟨⟨-, hos⟩, hoc⟩, -⟩ := hl
+  unfold Desc.wf at wff wfw
+  have hlen : (envN "filter").shape.length = (envN "array").shape.length := by rw [hfs, ha]; omega
+  have := C10_filter_table_ok m (envN "array").shape (envN "filter").shape (by rw [ha]; exact hpos) hlen
+  exact ⟨hlen, by rw [hos, ha], hoc, (C11_mode_link_sound envW _ _ hmode).2, this.1, this.2⟩
+
+/-- **C11-T1 (erode, dilate).** Native `py_erode` / `py_dilate`: three ndarrays of one element type, `Bc` of the rank of
+`array`, `output` of its shape. -/
+theorem C11_morph_guards_imply_pre (env : Env) :
+    (npasses Generated.nativeGuards_morph_erode env = true →
+      ((env "array").kind = 1 ∧ (env "Bc").kind = 1 ∧ (env "output").kind = 1) ∧ PreMorph env) ∧
+    (npasses Generated.nativeGuards_morph_dilate env = true →
+      ((env "array").kind = 1 ∧ (env "Bc").kind = 1 ∧ (env "output").kind = 1) ∧ PreMorph env) := by
+  constructor <;> intro h
+  · simp [Generated.nativeGuards_morph_erode, npasses, NAtom.rejects, isArr] at h
+    obtain ⟨⟨ha, hb, ho⟩, h2, h3, h4⟩ := h
+    simp [ha, hb, ho] at h2 h3 h4
+    exact ⟨⟨ha, hb, ho⟩, h4, h2.symm, h3.1, h3.2⟩
+  · simp [Generated.nativeGuards_morph_dilate, npasses, NAtom.rejects, isArr] at h
+    obtain ⟨⟨ha, hb, ho⟩, h2, h3, h4⟩ := h
+    simp [ha, hb, ho] at h2 h3 h4
+    exact ⟨⟨ha, hb, ho⟩, h4, h2.symm, h3.1, h3.2⟩
+
+/-- **C11+C10 (erode / dilate), links extracted.** For an ndarray `A` with at least one element per axis: with the
+extracted links of `morph.erode` → `_morph.erode` (the links of `morph.dilate` → `_morph.dilate` are the same list: second
+conjunct) — `array` is `A` itself, `Bc` comes from `get_structuring_elem(A, Bc)` (the rank of `A`, at least one element:
+NON-EMPTY), `output` from `_get_output(A, out)` — the structuring element has the rank of the array and no zero-length
+axis, the output has the shape of the array, and for every border mode the offset table of the filter iterator (C10 B1)
+holds only the flag or indices inside the array. -/
+theorem C11_erode_dilate_safe (envW envN : Env) (m : Mode)
+    (hA : (envW "A").kind = 1) (wfA : (envW "A").wf)
+    (hl : Linked Generated.lookupTables Generated.links_morph_erode__morph_erode envW envN = true)
+    (hpos : ∀ d ∈ (envW "A").shape, 0 < d) :
+    Generated.links_morph_dilate__morph_dilate = Generated.links_morph_erode__morph_erode ∧
+    (envN "Bc").shape.length = (envN "array").shape.length ∧ (∀ d ∈ (envN "Bc").shape, 0 < d) ∧
+    (envN "output").shape = (envN "array").shape ∧
+    filterOk m (envN "array").shape (envN "Bc").shape = true ∧
+    ∀ i ∈ filterIdx m (envN "array").shape (envN "Bc").shape, i = -1 ∨ (0 ≤ i ∧ i < (shapeSize (envN "array").shape : Int)) := by
+  simp [Linked, Generated.links_morph_erode__morph_erode, Link.holds, isArr, hA] at hl
+  obtain ⟨ha, ⟨⟨⟨-, hbn⟩, hbw⟩, hbs⟩, ⟨-, hos⟩, -⟩ := hl
+  unfold Desc.wf at wfA
+  have hlen : (envN "Bc").shape.length = (envN "array").shape.length := by rw [ha]; omega
+  have hbpos := all_pos_of_shapeSize_ne_zero (envN "Bc").shape (by unfold Desc.size at hbs; omega)
+  have := C10_filter_table_ok m (envN "array").shape (envN "Bc").shape (by rw [ha]; exact hpos) hlen
+  exact ⟨by decide, hlen, hbpos, by rw [hos, ha], this.1, this.2⟩
+
+/-- **C11-T1 (label).** Native `py_label`: `array` (labeled in place) is an int32 C array and `filter` has its element
+type. With the extracted links of `labeled.label` → `_labeled.label` on an ndarray `array`: what is labeled is the output
+of `_get_output(array, out, …, np.int32)` — of the SHAPE of the caller's array — and the structuring element comes from
+`get_structuring_elem` for it: the rank of the array, non-empty. (The native entry point does not compare the ranks
+itself.) -/
+theorem C11_label_guards_imply_pre (envW envN : Env) :
+    (npasses Generated.nativeGuards_labeled_label envN = true →
+      ((envN "array").kind = 1 ∧ (envN "filter").kind = 1) ∧ PreLabel envN) ∧
+    ((envW "array").kind = 1 →
+      Linked Generated.lookupTables Generated.links_labeled_label__labeled_label envW envN = true →
+      (envN "array").shape = (envW "array").shape ∧ (envN "filter").ndim = (envN "array").ndim ∧ 0 < (envN "filter").size) := by
+  constructor
+  · intro h
+    simp [Generated.nativeGuards_labeled_label, npasses, NAtom.rejects, isArr] at h
+    obtain ⟨⟨ha, hf⟩, h2, h3, h4⟩ := h
+    simp [ha, hf] at h2 h3 h4
+    exact ⟨⟨ha, hf⟩, by simpa [canonT] using h3, h4, h2⟩
+  · intro hk hl
+    simp [Linked, Generated.links_labeled_label__labeled_label, Link.holds, isArr, hk] at hl
+    obtain ⟨⟨⟨⟨-, han⟩, has⟩, -⟩, ⟨⟨-, hfn⟩, -⟩, hfs⟩ := hl
+    exact ⟨has, by omega, hfs⟩
+
+/-- **C11+C10 (label).** With the links of `labeled.label` on an ndarray with at least one element per axis (well formed)
+and a well-formed element descriptor: for every border mode the offset table of the filter iterator over the labeled
+array and the structuring element (C10 B1) holds only the flag or indices inside the array. -/
+theorem C11_label_safe (envW envN : Env) (m : Mode)
+    (hk : (envW "array").kind = 1)
+    (hl : Linked Generated.lookupTables Generated.links_labeled_label__labeled_label envW envN = true)
+    (wfa : (envN "array").wf) (wff : (envN "filter").wf)
+    (hpos : ∀ d ∈ (envW "array").shape, 0 < d) :
+    filterOk m (envN "array").shape (envN "filter").shape = true ∧
+    ∀ i ∈ filterIdx m (envN "array").shape (envN "filter").shape, i = -1 ∨ (0 ≤ i ∧ i < (shapeSize (envN "array").shape : Int)) := by
+  obtain ⟨hs, hr, -⟩ := (C11_label_guards_imply_pre envW envN).2 hk hl
+  unfold Desc.wf at wfa wff
+  exact C10_filter_table_ok m (envN "array").shape (envN "filter").shape (by rw [hs]; exact hpos) (by omega)
+
+/-- **C11-T1 (rank_filter, median_filter) — the data flow of `_check_rank` modelled.** `envH` describes the arguments of the
+helper `convolve._check_rank(Bc, rank, fname)`, `envN` those of the native `_convolve.rank_filter`. The translator's value
+numbering of the locals of `convolve.rank_filter` and `convolve.median_filter` (`Generated.checkFlowTable`, rows 1 and 0)
+shows that the very `Bc` object the helper has checked, and the checked `rank` (`int(rank)` of it in `median_filter`), are
+what the native entry point receives, with no store in between. Hence: if the helper's guards — as extracted — pass, the
+rank selects an element of the neighbourhood at the native call: `0 ≤ rank < count_nonzero(Bc)`. The native guards add:
+same rank of array and `Bc`, one element type, a C-array output. -/
+theorem C11_rank_guards_imply_pre (envH envN : Env) (hr : (envH "rank").kind = 2) (hb : (envH "Bc").kind = 1)
+    (h : passes Generated.guards_convolve__check_rank envH = true) :
+    Generated.checkFlowTable.take 2 =
+      [("convolve.median_filter", "_check_rank", "_convolve.rank_filter", 0, [("Bc", "Bc", 0), ("rank", "rank", 1)]),
+       ("convolve.rank_filter", "_check_rank", "_convolve.rank_filter", 0, [("Bc", "Bc", 0), ("rank", "rank", 0)])] ∧
+    (Flows [("Bc", "Bc", 0), ("rank", "rank", 0)] envH envN = true → PreRank envN) ∧
+    (Flows [("Bc", "Bc", 0), ("rank", "rank", 1)] envH envN = true → PreRank envN) ∧
+    (npasses Generated.nativeGuards_convolve_rank_filter envN = true → PreRankN envN) := by
+  have hp := C11_check_rank_helper_pre envH hr hb h
+  unfold PreRank at hp ⊢
+  refine ⟨by rfl, ?_, ?_, ?_⟩
+  · intro hf
+    simp [Flows, flowHolds] at hf
+    rw [hf.1, hf.2]; exact hp
+  · intro hf
+    simp [Flows, flowHolds, isInt, hr] at hf
+    rw [hf.1, hf.2.2]; exact hp
+  · intro hn
+    simp [Generated.nativeGuards_convolve_rank_filter, npasses, NAtom.rejects, isArr] at hn
+    obtain ⟨ha, hb', ho, h4, h5, h6, h7⟩ := hn
+    simp [ha, hb', ho] at h4 h5 h6 h7
+    exact ⟨h5, h4, h6, h7⟩
+
+/-- **C11 (hitmiss): the precondition "every axis positive" is NOT implied by the guards.** A 4 × 4 image with a 0 × 3
+structuring element (and a 4 × 4 C-array result) passes every guard of the wrapper `morph.hitmiss` and of the native
+`py_hitmiss`, and is linked by the extracted links; the hypothesis `hb` of `C10_hitmiss_in_bounds` fails for it (`C11_hitmiss_safe` covers it all the same). (Run on
+the real code by the corpus cases `corpus/C11/hitmiss_zero_axis_*.json` under AddressSanitizer: no crash — with a
+zero-length axis the neighbour list is empty, so only `res.at_flat(i)`, `i < N`, is touched.) -/
+theorem C11_hitmiss_zero_axis_passes_guards :
+    let envW : Env := fun n =>
+      if n = "input" then { kind := 1, ndim := 2, dcls := 2, shape := [4, 4], tnum := 2, flags := 7 } else
+      if n = "Bc" then { kind := 1, ndim := 2, dcls := 2, shape := [0, 3], tnum := 2, flags := 7 } else {}
+    let envN : Env := fun n =>
+      if n = "array" then { kind := 1, ndim := 2, dcls := 2, shape := [4, 4], tnum := 2, flags := 7 } else
+      if n = "Bc" then { kind := 1, ndim := 2, dcls := 2, shape := [0, 3], tnum := 2, flags := 7 } else
+      if n = "res_a" then { kind := 1, ndim := 2, dcls := 2, shape := [4, 4], tnum := 2, flags := 7 } else {}
+    passes Generated.guards_morph_hitmiss envW = true ∧ npasses Generated.nativeGuards_morph_hitmiss envN = true ∧
+    Linked Generated.lookupTables Generated.links_morph_hitmiss__morph_hitmiss envW envN = true ∧
+    ¬ (∀ d ∈ (envN "Bc").shape, 0 < d) := by
+  decide
+
+/-- **C11-T1 (surf, interest_points, pyramid).** The guards of the three native SURF entry points — with the tests of
+`check_pyramid_parameters` (added by the repair of the octave/scale crashes) inlined by the translator — let the pyramid
+be built only for a 2-D array, `1 ≤ nr_octaves ≤ 30`, `nr_intervals ≥ 1`, `initial_step_size ≥ 1` (the integer parameters
+are C ints by the `"Oiii…"` format). The remaining test of the checker (filter sizes fit an `int`) is floating point and
+stays opaque. -/
+theorem C11_surf_guards_imply_pre (env : Env)
+    (ho : (env "nr_octaves").kind = 2) (hi : (env "nr_intervals").kind = 2) (hs : (env "initial_step_size").kind = 2) :
+    (npasses Generated.nativeGuards_surf_surf env = true → (env "array").kind = 1 ∧ (env "array").tnum = 12 ∧ PreSurf env) ∧
+    (npasses Generated.nativeGuards_surf_interest_points env = true → (env "array").kind = 1 ∧ PreSurf env) ∧
+    (npasses Generated.nativeGuards_surf_pyramid env = true → (env "array").kind = 1 ∧ PreSurf env) := by
+  refine ⟨?_, ?_, ?_⟩ <;> intro h
+  · simp [Generated.nativeGuards_surf_surf, npasses, NAtom.rejects, isArr, isInt, ho, hi, hs] at h
+    obtain ⟨ha, h2, h3, h4, h5, h6, h7⟩ := h
+    simp [ha] at h2 h3
+    exact ⟨ha, h3, h2, by omega, h5, by omega, by omega⟩
+  · simp [Generated.nativeGuards_surf_interest_points, npasses, NAtom.rejects, isArr, isInt, ho, hi, hs] at h
+    obtain ⟨ha, h2, h4, h5, h6, h7⟩ := h
+    simp [ha] at h2
+    exact ⟨ha, h2, by omega, h5, by omega, by omega⟩
+  · simp [Generated.nativeGuards_surf_pyramid, npasses, NAtom.rejects, isArr, isInt, ho, hi, hs] at h
+    obtain ⟨ha, h2, h4, h5, h6, h7⟩ := h
+    simp [ha] at h2
+    exact ⟨ha, h2, by omega, h5, by omega, by omega⟩
+
+/-- **C11-T1 (shift, zoom, spline_filter: spline order).** The helper `interpolate._check_interpolate(array, order, …)`
+raises unless `1 ≤ order ≤ 4`; by the translator's value numbering (`Generated.checkFlowTable`, rows 2–5) the `order` it
+has checked — reached from `shift` and `zoom` through `_maybe_filter` — is the very object passed as `order` to
+`_interpolate.zoom_shift` / `_interpolate.spline_filter1d`. Together with `C11_zoom_shift_guards_imply_pre` (finite shift,
+C arrays, one shift/zoom entry per axis). -/
+theorem C11_interpolate_order_guards_imply_pre (envH envN : Env) (ho : (envH "order").kind = 2)
+    (h : passes Generated.guards_interpolate__check_interpolate envH = true) :
+    (Generated.checkFlowTable.drop 2).map (fun e => (e.1, e.2.2.1, e.2.2.2.2)) =
+      [("interpolate.spline_filter1d", "_interpolate.spline_filter1d", [("order", "order", 0)]),
+       ("interpolate.spline_filter", "_interpolate.spline_filter1d", [("order", "order", 0)]),
+       ("interpolate.zoom", "_interpolate.zoom_shift", [("order", "order", 0)]),
+       ("interpolate.shift", "_interpolate.zoom_shift", [("order", "order", 0)])] ∧
+    (Flows [("order", "order", 0)] envH envN = true → PreOrder envN) := by
+  refine ⟨by rfl, ?_⟩
+  intro hf
+  simp [Flows, flowHolds] at hf
+  simp [Generated.guards_interpolate__check_interpolate, passes, Atom.rejects, isInt, ho] at h
+  unfold PreOrder
+  rw [hf]; omega
+
+/-- **C11+C10 (haar, ihaar, daubechies, idaubechies): odd sizes are safe.** If the guards of a native wavelet entry point
+pass, the array is a matrix `n0 × n1` (well-formed descriptor); NO guard asks for even sizes, and none is needed: for every
+row length `n1 ≥ 0` — odd included — and every number of coefficients, every access of the C10 models of `haar`, `ihaar`
+(any column step ≥ 1), `wavelet`, `iwavelet` is in bounds and the loops leave through their tests. (The second call of each
+wrapper passes `f.T`: link `other`, a matrix again.) -/
+theorem C11_wavelet_safe (env : Env) (wf : (env "array").wf) :
+    (npasses Generated.nativeGuards_convolve_haar env = true ∨ npasses Generated.nativeGuards_convolve_ihaar env = true ∨
+     npasses Generated.nativeGuards_convolve_wavelet env = true ∨ npasses Generated.nativeGuards_convolve_iwavelet env = true ∨
+     npasses Generated.nativeGuards_convolve_daubechies env = true ∨ npasses Generated.nativeGuards_convolve_idaubechies env = true) →
+    PreWavelet env ∧ ∃ n0 n1 : Nat, (env "array").shape = [n0, n1] ∧
+      (∀ a ∈ haarAccesses n1, 0 ≤ a.i ∧ a.i < a.size) ∧ haarDone n1 = true ∧
+      (∀ step : Int, 1 ≤ step → ∀ a ∈ ihaarAccesses n1 step, 0 ≤ a.i ∧ a.i < a.size) ∧
+      ∀ nc : Nat, (∀ a ∈ waveletAccesses n1 nc, 0 ≤ a.i ∧ a.i < a.size) ∧ waveletDone n1 nc = true ∧
+        ∀ step : Int, 1 ≤ step → ∀ a ∈ iwaveletAccesses n1 nc step, 0 ≤ a.i ∧ a.i < a.size := by
+  intro h
+  have h2 : (env "array").ndim = 2 := by
+    rcases h with h | h | h | h | h | h <;>
+      simp [Generated.nativeGuards_convolve_haar, Generated.nativeGuards_convolve_ihaar, Generated.nativeGuards_convolve_wavelet,
+        Generated.nativeGuards_convolve_iwavelet, Generated.nativeGuards_convolve_daubechies, Generated.nativeGuards_convolve_idaubechies,
+        npasses, NAtom.rejects, isArr] at h <;> first | omega | grind
+  obtain ⟨n0, n1, e⟩ := shape_of_len_two (env "array").shape (by rw [← wf]; exact h2)
+  have hh := C10_haar_in_bounds n1 (by omega)
+  exact ⟨h2, n0, n1, e, hh.1, hh.2.1, hh.2.2, fun nc => C10_wavelet_in_bounds n1 nc (by omega) (by omega)⟩
+
+/-- **C11+C10 (thin).** Native `py_thin`: Boolean, contiguous `array` and `buffer` of one shape. The extracted link of
+`thin.thin` for `array` is `zeroFrame r c`: `np.zeros((r + 2, c + 2), bool)` into which the wrapper has stored only at
+`[1:r + 1, 1:c + 1]` (any other store would have degraded the link) — a matrix with both sides ≥ 2 whose one-pixel frame
+is still zero. For such an image (`thinFrameClear`, the hypothesis `hf`, is what the link MEANS for the pixel values; the
+descriptor carries only the shape) a whole sweep of the eight structuring elements is in bounds (C10 B5). -/
+theorem C11_thin_safe (envW envN : Env) (img : List Bool)
+    (hl : Linked Generated.lookupTables Generated.links_thin_thin__thin_thin envW envN = true)
+    (hn : npasses Generated.nativeGuards_thin_thin envN = true) :
+    PreThin envN ∧ ∃ rows cols : Nat, (envN "array").shape = [rows, cols] ∧ 2 ≤ rows ∧ 2 ≤ cols ∧
+      ((img.length : Int) = (rows : Int) * cols → thinFrameClear rows cols img = true →
+        ∀ a ∈ thinSweep rows cols img, 0 ≤ a.i ∧ a.i < a.size) := by
+  simp [Generated.nativeGuards_thin_thin, npasses, NAtom.rejects, isArr] at hn
+  obtain ⟨⟨ha, hb⟩, h2, h3, h4, h5, h6⟩ := hn
+  simp [ha, hb] at h2 h3 h4 h5 h6
+  simp [Linked, Generated.links_thin_thin__thin_thin, Link.holds, isArr, ha] at hl
+  obtain ⟨⟨⟨⟨-, hlen⟩, hr⟩, hc⟩, -⟩ := hl
+  obtain ⟨r, c, e⟩ := shape_of_len_two (envN "array").shape hlen
+  rw [e] at hr hc
+  simp at hr hc
+  refine ⟨⟨h2, h3, h4, h5, h6⟩, r, c, e, hr, hc, ?_⟩
+  intro hlen2 hf
+  exact (C10_thin_in_bounds r c img (by omega) hlen2 hf).1
+
+/-- **C11+C10 (distance, gvoronoi → dt).** Both wrappers hand `_distance.dt` a freshly built array (links `other`: `np.zeros(
+bw.shape, np.double)`), so the safety argument is the one of the native guards: whenever no guard of `py_dt` takes its
+exit, `C11_dt_safe` applies. Here: the links table shows that `distance` passes `None` for `orig` at both of its calls and
+`gvoronoi` a computed index array, and that `distance`'s own guards leave rank ≥ 1 and at least one element. -/
+theorem C11_distance_links :
+    (Generated.links_distance_distance__distance_dt.map (·.1) = ["f", "orig"]) ∧
+    Generated.links_distance_distance__distance_dt.getD 1 default = ("orig", .noneLit) ∧
+    Generated.links_distance_distance__distance_dt_1.getD 1 default = ("orig", .noneLit) ∧
+    Generated.links_segmentation_gvoronoi__distance_dt.map (·.1) = ["f", "orig"] := by
+  decide
+
+/-- **C11+C10 (cooccurence), links extracted.** `array` is the caller's `f` itself and `result` the caller's `output`
+(same object, zero-filled: the link is `norm output`) when one is given; with the wrapper guards passing on a 2-D
+`output`, `++res.at(v, v2)` is inside the RESULT the native entry point receives for all pixel values up to the maximum of
+`f`. The native guard adds that the result is int32. -/
+theorem C11_cooccurence_linked_safe (envW envN : Env) (v v2 : Int) (hf : (envW "f").kind = 1) (ho : (envW "output").kind = 1)
+    (h2 : (envW "output").shape.length = 2)
+    (h : passes Generated.guards_features_texture_cooccurence envW = true)
+    (hl : Linked Generated.lookupTables Generated.links_features_texture_cooccurence__texture_cooccurence envW envN = true)
+    (hv : v ≤ (envW "f").ival) (hv2 : v2 ≤ (envW "f").ival) :
+    envN "array" = envW "f" ∧
+    ∀ a ∈ coocAccesses ((envN "result").shape.getD 0 0) ((envN "result").shape.getD 1 0) v v2, 0 ≤ a.i ∧ a.i < a.size := by
+  simp [Linked, Generated.links_features_texture_cooccurence__texture_cooccurence, Link.holds, isArr, ho] at hl
+  obtain ⟨ha, ⟨⟨-, -⟩, hrs⟩, -⟩ := hl
+  refine ⟨ha, ?_⟩
+  rw [hrs]
+  exact C11_cooccurence_safe envW v v2 hf ho h2 h hv hv2
+
+/-- **C11-T1 (lbp map, znl, cooccurence native).** What the three feature entry points check before casting the raw data
+pointers: `_lbp.map` a contiguous 1-D uint32 array (mapped in place over `dim(0)` elements), `_zernike.znl` double /
+complex double / double arrays, `_texture.cooccurence` an int32 result. (`znl` does NOT compare the sizes of its three
+arrays — it reads `size(Da)` elements of each; `zernike_moments` builds all three with one Boolean mask.) -/
+theorem C11_features_guards_imply_pre (env : Env) :
+    (npasses Generated.nativeGuards_lbp_map env = true → (env "array").kind = 1 ∧ PreLbp env) ∧
+    (npasses Generated.nativeGuards_zernike_znl env = true →
+      ((env "Da").kind = 1 ∧ (env "Aa").kind = 1 ∧ (env "Pa").kind = 1) ∧ PreZnl env) ∧
+    (npasses Generated.nativeGuards_texture_cooccurence env = true →
+      ((env "array").kind = 1 ∧ (env "result").kind = 1 ∧ (env "Bc").kind = 1) ∧ PreCoocN env) := by
+  refine ⟨?_, ?_, ?_⟩ <;> intro h
+  · simp [Generated.nativeGuards_lbp_map, npasses, NAtom.rejects, isArr] at h
+    obtain ⟨ha, h2, h3, h4⟩ := h
+    simp [ha] at h2 h3 h4
+    exact ⟨ha, h2, h3, h4⟩
+  · simp [Generated.nativeGuards_zernike_znl, npasses, NAtom.rejects, isArr] at h
+    obtain ⟨hd, ha, hp, h4, h5, h6⟩ := h
+    simp [hd, ha, hp] at h4 h5 h6
+    exact ⟨⟨hd, ha, hp⟩, h4, h5, h6⟩
+  · simp [Generated.nativeGuards_texture_cooccurence, npasses, NAtom.rejects, isArr] at h
+    obtain ⟨ha, hr, hb, h4⟩ := h
+    simp [hr] at h4
+    exact ⟨⟨ha, hr, hb⟩, h4⟩
+
+/-- **C11 (zernike_moments: radius / degree).** For EVERY integer `degree` (negative: no call at all) the loops of
+`zernike_moments` call `_zernike.znl(…, n, l)` only with `0 ≤ l ≤ n ≤ degree` and `n − l` even; then for every `m` of the
+kernel's loop `0 ≤ m ≤ (n − l)/2` the index `m` is inside `g_m` (allocated with `(n − l)/2 + 1` entries) and all four
+arguments of `fact(·)` are non-negative — `fact` recurses without end on a negative argument (a stack overflow reachable
+only by calling `_zernike.znl` directly with `l > n` or `n < 0`). The radius only divides floating-point coordinates. -/
+theorem C11_zernike_loop_pre (degree : Int) :
+    ∀ nl ∈ znlPairs degree, nl.2 ≤ nl.1 ∧ (nl.1 : Int) ≤ degree ∧ (nl.1 - nl.2) % 2 = 0 ∧
+      ∀ m : Int, 0 ≤ m → m ≤ ((nl.1 : Int) - nl.2) / 2 →
+        m < ((nl.1 : Int) - nl.2) / 2 + 1 ∧ ∀ x ∈ znlFactArgs nl.1 nl.2 m, 0 ≤ x := by
+  intro nl h
+  simp only [znlPairs, List.mem_flatMap, List.mem_map, List.mem_filter, List.mem_range] at h
+  obtain ⟨n, hn, l, ⟨hl, hpar⟩, rfl⟩ := h
+  have hle : l ≤ n := by omega
+  refine ⟨hle, by omega, by simpa using hpar, ?_⟩
+  intro m hm0 hm1
+  refine ⟨by omega, ?_⟩
+  intro x hx
+  simp only [znlFactArgs, List.mem_cons, List.mem_nil_iff, or_false] at hx
+  rcases hx with rfl | rfl | rfl | rfl <;> omega
+
+/-- non-vacuity (round 3): the pairs for degree 3; a linked find2d environment; the link table and the flow table -/
+example : znlPairs 3 = [(0, 0), (1, 1), (2, 0), (2, 2), (3, 1), (3, 3)] ∧ znlPairs (-2) = [] := by decide
+example :
+    Linked Generated.lookupTables Generated.links_convolve_find__convolve_find2d
+      (fun n => if n = "f" then { kind := 1, ndim := 2, shape := [3, 4], tnum := 2, flags := 7 } else
+                if n = "template" then { kind := 1, ndim := 2, shape := [2, 2], tnum := 12, flags := 7 } else {})
+      (fun n => if n = "array" then { kind := 1, ndim := 2, shape := [3, 4], tnum := 2, flags := 7 } else
+                if n = "target" then { kind := 1, ndim := 2, shape := [2, 2], tnum := 2, flags := 7 } else
+                if n = "output" then { kind := 1, ndim := 2, shape := [3, 4], tnum := 0, flags := 7 } else {}) = true ∧
+    firstUnlinked Generated.lookupTables Generated.links_convolve_find__convolve_find2d
+      (fun n => if n = "f" then { kind := 1, ndim := 2, shape := [3, 4], tnum := 2, flags := 7 } else
+                if n = "template" then { kind := 1, ndim := 2, shape := [2, 2], tnum := 12, flags := 7 } else {})
+      (fun n => if n = "array" then { kind := 1, ndim := 2, shape := [3, 4], tnum := 2, flags := 7 } else
+                if n = "target" then { kind := 1, ndim := 1, shape := [4], tnum := 2, flags := 7 } else
+                if n = "output" then { kind := 1, ndim := 2, shape := [3, 4], tnum := 0, flags := 7 } else {}) = some 1 := by
+  decide
+example : Generated.argLinkTable.length = 63 ∧ Generated.checkFlowTable.length = 6 := by decide
+
+/-! ### round 3, composed with the C10 theorems of round 3 (histogram, lbp map) -/
+
+/-- **C11+C10 (fullhistogram → histogram).** The extracted links of `histogram.fullhistogram` show what reaches
+`_histogram.histogram`: a rank-and-shape preserving conversion of `img` (`np.require(img, requirements='CAW')`) and a bins
+array built by exactly the expression `np.zeros(int(img.max()) + 1, np.uintc)` — the sizing `C10Misc.histWrapperSize`
+models. If the native guards pass, both are C arrays and the bins are `uint32`; if moreover the type switch of the kernel
+admits the array's type number (the UNSIGNED guard: `histTypeRange`, every admitted type has `lo = 0`) and the element
+values are values of that C type, then every `data[i]` and every `++histogram[v]` is in bounds (C10 round 3). -/
+theorem C11_histogram_safe (env : Env) (lo hi : Int) (vals : List Int) (s : Int)
+    (hn : npasses Generated.nativeGuards_histogram_histogram env = true)
+    (hty : C10Misc.histTypeRange (env "array").tnum = some (lo, hi))
+    (hv : ∀ v ∈ vals, lo ≤ v ∧ v ≤ hi) (hs : C10Misc.histWrapperSize vals = some s) :
+    Generated.links_histogram_fullhistogram__histogram_histogram =
+      [("array", .norm "img"), ("histogram", .other "np.zeros(int(img.max()) + 1, np.uintc)")] ∧
+    ((env "array").isCArray = true ∧ (env "histogram").isCArray = true ∧ (env "histogram").tnum = 6) ∧
+    ∀ a ∈ C10Misc.histAccesses vals s, 0 ≤ a.i ∧ a.i < a.size := by
+  simp [Generated.nativeGuards_histogram_histogram, npasses, NAtom.rejects, isArr] at hn
+  obtain ⟨ha, hh, h3, h4, h5⟩ := hn
+  simp [ha, hh] at h3 h4 h5
+  exact ⟨by decide, ⟨h3, h4, h5⟩, C10_histogram_in_bounds (env "array").tnum lo hi vals s hty hv hs⟩
+
+/-- **C11+C10 (lbp map) — partial.** If the guards of the native `py_map` pass, the array is a contiguous 1-D `uint32`
+array, mapped in place over its `dim(0)` elements; for `npoints = P ≤ 32` and codes below `2^P` every access of the C10
+model (the element, the shift count `P − 1` against the word size, the mapped code against the `2^P` entries of the
+tables of `lbp.py`) is in bounds and the rotation loop ends. THE GAP: neither `P ≤ 32` nor `code < 2^P` is implied by a
+guard — the second conjunct exhibits a descriptor with `npoints = 40` that passes every native guard (`lbp.py` passes its
+`points` through unchanged: link `pass points`; the codes are sums of `points` distinct powers of two, a value fact
+outside the descriptor DSL). For `P > 32` the shift count exceeds the word size (undefined behaviour, no memory access). -/
+theorem C11_lbp_safe_partial (env : Env) (P : Nat) (hP : P ≤ 32)
+    (hn : npasses Generated.nativeGuards_lbp_map env = true) :
+    (PreLbp env ∧ ∀ codes : List Nat, (∀ v ∈ codes, v < 2 ^ P) →
+      ∀ a ∈ C10Misc.lbpAccesses (P : Int) codes, 0 ≤ a.i ∧ a.i < a.size) ∧
+    (npasses Generated.nativeGuards_lbp_map (fun n =>
+        if n = "array" then { kind := 1, ndim := 1, shape := [5], tnum := 6, flags := 7 } else
+        if n = "npoints" then { kind := 2, ival := 40 } else {}) = true ∧
+      Generated.links_features_lbp_lbp_transform__lbp_map.getD 1 default = ("npoints", .pass "points")) :=
+  ⟨⟨((C11_features_guards_imply_pre env).1 hn).2, (C10_lbp_map_in_bounds P hP).1⟩, by decide⟩
+
+/-- **C11+C10 (surf / interest_points / pyramid → build_pyramid).** If the extracted guards of a native SURF entry point that
+builds the pyramid pass (the integer parameters being C ints), the array is a matrix `n0 × n1` (well-formed descriptor)
+and `initial_step_size ≥ 1`, which is all `C10_surf_pyramid_in_bounds` needs: every `pyramid[o]` index, all 32 integral-image
+reads of the eight lobes of every sample and every write `at(i, y/step, x/step)` of the C10 model are in bounds and the
+`y += step_size` loops terminate — for the octave and interval counts at hand (`1 … 30`, `≥ 1`). -/
+theorem C11_surf_pyramid_safe (env : Env) (wf : (env "array").wf)
+    (ho : (env "nr_octaves").kind = 2) (hi : (env "nr_intervals").kind = 2) (hs : (env "initial_step_size").kind = 2)
+    (h : npasses Generated.nativeGuards_surf_surf env = true ∨ npasses Generated.nativeGuards_surf_interest_points env = true ∨
+         npasses Generated.nativeGuards_surf_pyramid env = true) :
+    PreSurf env ∧ ∃ n0 n1 : Nat, (env "array").shape = [n0, n1] ∧
+      Mahotas.C10Surf.sAllOk (Mahotas.C10Surf.pyramidAccesses n0 n1 (env "nr_octaves").ival (env "nr_intervals").ival
+        (env "initial_step_size").ival) = true ∧
+      Mahotas.C10Surf.pyramidDone (env "nr_octaves").ival (env "initial_step_size").ival = true := by
+  have hp : PreSurf env := by
+    rcases h with h | h | h
+    · exact ((C11_surf_guards_imply_pre env ho hi hs).1 h).2.2
+    · exact ((C11_surf_guards_imply_pre env ho hi hs).2.1 h).2
+    · exact ((C11_surf_guards_imply_pre env ho hi hs).2.2 h).2
+  obtain ⟨n0, n1, e⟩ := shape_of_len_two (env "array").shape (by rw [← wf]; exact hp.1)
+  have := C10_surf_pyramid_in_bounds n0 n1 (env "nr_octaves").ival (env "nr_intervals").ival (env "initial_step_size").ival hp.2.2.2.2
+  exact ⟨hp, n0, n1, e, this.1, this.2⟩
+
+/-- **C11+C10 (surf.descriptors / surf.dense → descriptor sampling).** If the extracted guards of the native
+`py_descriptors` pass, the integral image is a matrix `n0 × n1` of doubles (well-formed descriptor) and the points are a
+2-D double array; since the repair 6faa5ae of `sum_rect` (two-sided clamps, empty image not read) NOTHING more is needed:
+for ARBITRARY sample positions and window size — whatever the float-derived scale, rotation and border test give, also for
+the small scales `surf.dense(f, 1)` passes — every read of every `haar_x`/`haar_y` sample of the C10 model is inside the
+integral image (`C10_surf_descriptor_windows_in_bounds`). (The defect this round found on the pinned clamps is kept as
+`C10_surf_descriptor_pinned_guard_insufficient`.) -/
+theorem C11_surf_descriptors_safe (env : Env) (wf : (env "array").wf)
+    (h : npasses Generated.nativeGuards_surf_descriptors env = true) (pts : List (Int × Int)) (w : Int) :
+    (env "array").tnum = 12 ∧ (env "points_arr").ndim = 2 ∧ ∃ n0 n1 : Nat, (env "array").shape = [n0, n1] ∧
+      Mahotas.C10Surf.sAllOk (Mahotas.C10Surf.descWindowAccesses n0 n1 pts w) = true := by
+  simp [Generated.nativeGuards_surf_descriptors, npasses, NAtom.rejects, isArr] at h
+  obtain ⟨⟨ha, hp⟩, h2, h3, -, h5⟩ := h
+  simp [ha, hp, canonT] at h2 h3 h5
+  obtain ⟨n0, n1, e⟩ := shape_of_len_two (env "array").shape (by rw [← wf]; exact h2)
+  exact ⟨by split at h3 <;> (try split at h3) <;> omega, h5, n0, n1, e, C10_surf_descriptor_windows_in_bounds n0 n1 pts w⟩
+
+/-- non-vacuity: a 40 × 40 double image with one interest point row passes the guards of `py_descriptors` -/
+example :
+    npasses Generated.nativeGuards_surf_descriptors (fun n =>
+      if n = "array" then { kind := 1, ndim := 2, dcls := 3, shape := [40, 40], tnum := 12, flags := 7 } else
+      if n = "points_arr" then { kind := 1, ndim := 2, dcls := 3, shape := [1, 5], tnum := 12, flags := 7 } else {}) = true := by
+  decide
